@@ -145,6 +145,8 @@ def epsilon(env, kind):
         return 1  # the noisy MPS solver's value (an int there, too)
     if kind == "1e-6":
         return 1e-6  # the default
+    if kind == "0":
+        return 0.0  # boundary value: the secant test is never true, delta = 0 (seed C19d)
     e = env.real("eps", lo=0.0, hi=2.0)
     env.assume(e > 0, "epsilon > 0")
     return e
@@ -320,7 +322,7 @@ def base_case():
     def fn(env):
         bm = env.mod("emu_base.math.brents_root_finding")
         start, end, fs, fe = bracket_inputs(env)
-        eps = epsilon(env, env.choice("epsilon", list(EPS_KINDS)))
+        eps = epsilon(env, env.choice("epsilon", list(EPS_KINDS) + ["0"]))
         rf = bm.BrentsRootFinder(start=start, end=end, f_start=fs, f_end=fe, epsilon=eps)
         inv = binv(rf)
         if env.mutant("a_is_better"):
@@ -538,7 +540,9 @@ def cases(tier):
     quick = tier == "quick"
     out = []
     eps_main = ("sym",) if quick else EPS_KINDS  # symbolic eps > 0 subsumes every constant
-    for e in eps_main:
+    # epsilon = 0 is the boundary the symbolic kind excludes: every step goes through the inverse-quadratic
+    # branch (also the first one, where c = a makes its denominator vanish) - added after seed C19d
+    for e in tuple(eps_main) + ("0",):
         for form in FORMS:
             beyond = form.startswith("beyond")
             out.append(
@@ -547,7 +551,7 @@ def cases(tier):
                     fn=inductive_step(e, form),
                     covers=COVERS[1:4],
                     bounds={"epsilon": e, "history form": form, "steps": "1 (inductive)"},
-                    canaries=["halves", "wrong_history"] + (["strict_always"] if form == "beyond_b" else []),
+                    canaries=(["wrong_history"] if e == "0" else ["halves", "wrong_history"]) + (["strict_always"] if form == "beyond_b" and e != "0" else []),
                     weight=3.0 if beyond else 1.0,
                 )
             )
@@ -556,7 +560,7 @@ def cases(tier):
             name="base_constructor",
             fn=base_case(),
             covers=COVERS[:1],
-            bounds={"epsilon": list(EPS_KINDS), "width": "(0, 8]"},
+            bounds={"epsilon": list(EPS_KINDS) + ["0"], "width": "(0, 8]"},
             canaries=["a_is_better"],
             weight=0.2,
         )
